@@ -204,7 +204,7 @@ func cmdRun(args []string) {
 				return ob
 			}
 			return e.run(p)
-		}, 20*time.Second)
+		}, 10*time.Second)
 		if hasExtra {
 			fmt.Fprintf(rw, "%s\t%s\t%s\n", leanName, p, extra)
 		} else {
@@ -213,6 +213,12 @@ func cmdRun(args []string) {
 		fmt.Fprintf(ow, "%s\n", o)
 		classes[e.classify(p, o)]++
 		distinct[p] = struct{}{}
+		if strings.HasPrefix(o, "HANG") {
+			// the hung evaluation keeps running in its goroutine and cannot be killed: stop here,
+			// the case is reported (a hang is a violation or a disagreement in every engine)
+			classes["aborted-after-hang"]++
+			break
+		}
 	}
 	rw.Flush()
 	ow.Flush()
